@@ -56,12 +56,18 @@ def gen_cases(seed, tier):
         for bounded in ("logit", "probit"):
             for trained in (False, True):
                 cfgs.append(dict(backend=backend, bounded=bounded, affine=True, dtype=None, trained=trained, refit=False, int_bounds=True))
-    n_plain = len(cfgs) - 8
+    # the flow as Aspire itself builds it (init_flow: its own data transform, from the instance's settings), with one PERIODIC
+    # parameter among the bounded ones -- building the flow classes directly never shows what Aspire passes on
+    for backend in ("zuko", "flowjax"):
+        for trained in (False, True):
+            cfgs.append(dict(backend=backend, bounded="logit", affine=True, dtype="float64", trained=trained, refit=False, via_aspire=True))
+    n_plain = len(cfgs) - 12
     rng = rng_from(stream_seeds(seed, ID, 0)["scenario"])
     if tier == "quick":
         idx = sorted(rng.choice(n_plain, size=16, replace=False).tolist())
         # make sure both back-ends and all three bounded settings appear
-        ib = [c for c in cfgs[n_plain:] if (c["backend"], c["bounded"], c["trained"]) in (("flowjax", "logit", False), ("zuko", "probit", True), ("flowjax", "probit", True))]
+        ib = [c for c in cfgs[n_plain:] if c.get("int_bounds") and (c["backend"], c["bounded"], c["trained"]) in (("flowjax", "logit", False), ("zuko", "probit", True), ("flowjax", "probit", True))]
+        ib += [c for c in cfgs[n_plain:] if c.get("via_aspire") and (c["backend"], c["trained"]) in (("zuko", False), ("flowjax", False))]
         cfgs = [cfgs[i] for i in idx] + ib
     out = []
     for i, c in enumerate(cfgs):
@@ -126,6 +132,35 @@ def build_flow(cfg, seed):
         lo, hi = np.array([-2, 1, 0, -7])[:d], np.array([3, 9, 2, -1])[:d]
         bounds = {p: [int(l), int(h)] for p, l, h in zip(params, lo, hi)}
     rng = rng_from(seed)
+    if cfg.get("via_aspire"):
+        import math as _m
+
+        from aspire import Aspire
+
+        # first parameter periodic on [0, 2 pi): the data are piled up on the wrap point, so an untrained / barely trained flow
+        # has plenty of mass on both sides of it
+        lo, hi = lo.astype(float).copy(), hi.astype(float).copy()
+        lo[0], hi[0] = 0.0, 2 * _m.pi
+        bounds = {p_: (float(l), float(h)) for p_, l, h in zip(params, lo, hi)}
+        extra = {"seed": int(seed % 10000), "flow_class": "MAF", "transforms": 2, "hidden_features": [8, 8]} if cfg["backend"] == "zuko" else {"flow_layers": 2, "nn_width": 8}
+        if cfg["backend"] == "flowjax":
+            import jax
+            jax.config.update("jax_enable_x64", True)
+            extra["key"] = jax.random.key(int(seed % 10000))
+        A0 = Aspire(log_likelihood=const_like, log_prior=const_like, dims=d, parameters=params, prior_bounds=bounds,
+                    periodic_parameters=[params[0]], bounded_to_unbounded=True, bounded_transform="logit", flow_backend=cfg["backend"],
+                    dtype=cfg["dtype"], **extra)
+        A0.init_flow()
+        flow = A0.flow
+        xp = flow.xp
+        x = lo + (hi - lo) * rng.uniform(0.25, 0.75, size=(300, d))
+        x[:, 0] = (rng.normal(0.0, 0.5, size=300)) % (2 * _m.pi)
+        fit_kw = {"n_epochs": 2, "batch_size": 100} if cfg["backend"] == "zuko" else {"max_epochs": 2, "batch_size": 100, "show_progress": False}
+        if cfg["trained"]:
+            flow.fit(xp.asarray(x, dtype=flow.dtype), **fit_kw)
+        else:
+            flow.fit_data_transform(xp.asarray(x, dtype=flow.dtype))
+        return flow, params, bounds, lo, hi
     if cfg["backend"] == "zuko":
         import array_api_compat.torch as xp
         import torch
@@ -297,7 +332,7 @@ def run_case(case, workdir):
     return {
         "violations": V, "aborted": None, "evaluations": evaluations, "events": evaluations,
         "probes": probes, "faults_fired": {"restart": 1},
-        "nontrivial_keys": [[cfg["backend"], cfg["bounded"], cfg["affine"], cfg["dtype"], cfg["trained"], cfg.get("refit", False), cfg.get("dims", 2), bool(cfg.get("int_bounds"))]] if conclusive else [],
+        "nontrivial_keys": [[cfg["backend"], cfg["bounded"], cfg["affine"], cfg["dtype"], cfg["trained"], cfg.get("refit", False), cfg.get("dims", 2), bool(cfg.get("int_bounds")), bool(cfg.get("via_aspire"))]] if conclusive else [],
         "digest": digest_of([zs, [v["oracle"] for v in V]]),
         "sample": jsonable({"cfg": cfg, "E_Zhat": mean, "se": se, "median_ess": float(np.median(ess)), "replicates": len(zs)}),
     }
